@@ -340,7 +340,8 @@ def run(ctx):
         "all straight-line programs of length 1 and 2 (thorough: length 3 over a reduced alphabet for an eighth of the first steps) over %d unary "
         "and %d binary operation instances with every choice of pool operands (3 seeds + up to 3 results per step), each executed once as "
         "reference (observe everything after every step) and once per observation schedule (6 masks per step boundary; 2 per boundary at "
-        "length 3); evaluations = executions; states = distinct final pools; plus %d in-place mutation attempts"
+        "length 3); evaluations = executions; states = distinct final pools; plus 48 bool/int twin attribute sets rendered in 3 orders, one fresh "
+        "process per order; plus %d in-place mutation attempts"
         % (len(setup_ops[0]), len(setup_ops[1]), len(MUTATORS))
     )
     rep.bounds = {"program_length": 3 if ctx.thorough else 2, "masks_per_boundary_len1": len(MASKS), "masks_per_boundary_len2": len(MASKS) if ctx.thorough else 4}
